@@ -363,12 +363,12 @@ func plans() map[string]*propertyPlan {
 		},
 		"C16": {
 			level:       "exploration",
-			rule:        "grammar-directed random texts with tabs, multi-byte characters, both comment styles, multi-line strings and CR LF; every statement position of an accepted text is compared with the position computed by the reference reader, and each accepted text is re-run with one injected lexical or syntactic fault whose position the first error line must name; non-trivial = a tab, quote or multi-byte character occurs in the text",
+			rule:        "grammar-directed random texts with tabs, multi-byte characters, both comment styles, multi-line strings and CR LF; every statement position of an accepted text is compared with the position computed by the reference reader, and each accepted text is re-run with one injected lexical or syntactic fault whose position the first error line must name; semantic faults of 12 kinds whose error must name the exact injected statement; and modules fetched from generated search-path layouts (the family of C13), whose statement positions must name the file that was actually opened (file.read hook event); non-trivial = a tab, quote or multi-byte character occurs in the text",
 			assumptions: []string{"positions are 1-based lines and 1-based character columns (a tab is one character)"},
 			minObserved: map[string]int64{"statements": 10000, "fault_texts": 1000, "positions_checked": 500},
-			nontrivial:  "nontrivial", evaluations: "texts,fault_sets",
-			quick:    []spec{{family: "random", cases: 40000, cpuS: 600, asKB: 8 << 20, wallS: 900}, {family: "semantic", cases: 6000, cpuS: 600, asKB: 8 << 20, wallS: 900}},
-			thorough: []spec{{family: "random", cases: 2000000, cpuS: 3600, asKB: 8 << 20, wallS: 5400}, {family: "semantic", cases: 200000, cpuS: 3600, asKB: 8 << 20, wallS: 5400}},
+			nontrivial:  "nontrivial", evaluations: "texts,fault_sets,layouts",
+			quick:    []spec{{family: "random", cases: 40000, cpuS: 600, asKB: 8 << 20, wallS: 900}, {family: "semantic", cases: 6000, cpuS: 600, asKB: 8 << 20, wallS: 900}, {family: "files", cases: 1500, cpuS: 600, asKB: 8 << 20, wallS: 900}},
+			thorough: []spec{{family: "random", cases: 2000000, cpuS: 3600, asKB: 8 << 20, wallS: 5400}, {family: "semantic", cases: 200000, cpuS: 3600, asKB: 8 << 20, wallS: 5400}, {family: "files", cases: 30000, cpuS: 3600, asKB: 8 << 20, wallS: 5400}},
 		},
 		"C01": {
 			level:       "exploration",
@@ -471,12 +471,12 @@ func plans() map[string]*propertyPlan {
 		},
 		"C20": {
 			level:       "fault_enumeration",
-			rule:        "every text over the alphabet up to the length bound x 7 prefixes (two of them made of the texts' own characters) x every division into non-empty Write calls (a seventh of them also with empty writes interleaved) x every byte budget 0..len(output) of the underlying writer; plus buffers of 16 sizes around powers of two up to 256 KiB (quick) / 4 MiB (thorough) (6 line lengths, 3 prefixes, one or two Write calls, ~35 stop positions each, not exhaustive); a case is non-trivial when it has at least two chunks and a budget that cuts the output short; all cases are distinct by construction",
+			rule:        "every text over the alphabet up to the length bound x 7 prefixes (two of them made of the texts' own characters) x every division into non-empty Write calls (a seventh of them also with empty writes interleaved) x every byte budget 0..len(output) of the underlying writer; plus buffers of 16 sizes around powers of two up to 256 KiB (quick) / 4 MiB (thorough) (6 line lengths, 3 prefixes, one or two Write calls, ~35 stop positions each, not exhaustive); plus two stacked indenting writers with every interleaving of up to four writes (5 texts, to either writer, 9 prefix pairs, 5 states of the lower writer when the upper one is created) against two stacked reference writers, and underlying writers that break the io.Writer contract (negative or excessive counts: the count returned must stay within [0, len]); a case is non-trivial when it has at least two chunks and a budget that cuts the output short; all cases are distinct by construction",
 			assumptions: []string{"the underlying writer honours io.Writer: n < len(p) implies a non-nil error", "behaviour after a failed Write is unspecified and not driven"},
 			minObserved: map[string]int64{"cases": 1000},
-			nontrivial:  "nontrivial", evaluations: "cases,large_cases", exhaustive: true,
-			quick:    []spec{{family: "enum", shards: 16, params: map[string]string{"alphabet": "ab\n", "maxlen": "6"}, cpuS: 600, asKB: 8 << 20, wallS: 900}, {family: "large", shards: 16, cpuS: 600, asKB: 8 << 20, wallS: 900}},
-			thorough: []spec{{family: "enum", shards: 64, params: map[string]string{"alphabet": "ab\n", "maxlen": "8"}, cpuS: 3600, asKB: 8 << 20, wallS: 5400}, {family: "enum", shards: 16, params: map[string]string{"alphabet": "a\n", "maxlen": "10"}, cpuS: 3600, asKB: 8 << 20, wallS: 5400}, {family: "large", shards: 16, cpuS: 600, asKB: 8 << 20, wallS: 900}},
+			nontrivial:  "nontrivial", evaluations: "cases,large_cases,stacked_cases,out_of_contract_cases", exhaustive: true,
+			quick:    []spec{{family: "enum", shards: 16, params: map[string]string{"alphabet": "ab\n", "maxlen": "6"}, cpuS: 600, asKB: 8 << 20, wallS: 900}, {family: "large", shards: 16, cpuS: 600, asKB: 8 << 20, wallS: 900}, {family: "stacked", shards: 15, cpuS: 600, asKB: 8 << 20, wallS: 900}},
+			thorough: []spec{{family: "enum", shards: 64, params: map[string]string{"alphabet": "ab\n", "maxlen": "8"}, cpuS: 3600, asKB: 8 << 20, wallS: 5400}, {family: "enum", shards: 16, params: map[string]string{"alphabet": "a\n", "maxlen": "10"}, cpuS: 3600, asKB: 8 << 20, wallS: 5400}, {family: "large", shards: 16, cpuS: 600, asKB: 8 << 20, wallS: 900}, {family: "stacked", shards: 15, cpuS: 600, asKB: 8 << 20, wallS: 900}},
 		},
 	}
 }
